@@ -299,8 +299,15 @@ Section Machine.
     | ETick => wake s (seq 0 (length (calls s)))
     | EJunk => s
     | ERoute nm =>
-        let s1 := emit (set_routes s (routes s ++ [nm])) (ORoute nm) in
-        if connected s then spawn s1 KReg nm false else s1
+        (* a route declared while the starting task is still iterating over the (live) route list is
+           outside the property and not modelled: appv2 registers it twice, v1's second
+           set_interest_filter raises ValueError inside the starting task (docs/C17.md) *)
+        match st_pos s with
+        | Some _ => s
+        | None =>
+            let s1 := emit (set_routes s (routes s ++ [nm])) (ORoute nm) in
+            if connected s then spawn s1 KReg nm false else s1
+        end
     | EConnect =>
         if connected s then s
         else starter_next (set_starter (emit (set_conn s true) OConnect) (Some O) None)
